@@ -83,23 +83,11 @@ pub fn base_alphabet(seed: u64, hard: Option<&str>) -> Vec<Inp> {
     out
 }
 
-/// the single longest GAPS input (for the slow monitors)
-fn base_alphabet_gaps_only(hard: Option<&str>) -> Vec<Inp> {
-    let Some(p) = hard else { return vec![] };
-    let text = std::fs::read_to_string(p).unwrap_or_default();
-    let mut best: Option<Inp> = None;
-    for l in text.lines() {
-        let mut it = l.split_whitespace();
-        if it.next() != Some("str64") {
-            continue;
-        }
-        if let (Some(e), Some(d)) = (it.next(), it.next()) {
-            if best.as_ref().map_or(true, |b| d.len() > b.int.len()) {
-                best = Some(Inp { int: d.as_bytes().to_vec(), frac: vec![], exp: e.parse().unwrap_or(135) });
-            }
-        }
-    }
-    best.into_iter().collect()
+/// `--gap <exp>:<digits>`: one GAPS input handed over by the driver (the slow monitors must not parse the 13 MB list)
+fn gap_from_args(a: &Args) -> Vec<Inp> {
+    let Some(p) = a.rest.iter().position(|x| x == "--gap") else { return vec![] };
+    let Some((e, d)) = a.rest.get(p + 1).and_then(|s| s.split_once(':')) else { return vec![] };
+    vec![Inp { int: d.as_bytes().to_vec(), frac: vec![], exp: e.parse().unwrap_or(135) }]
 }
 
 /// number of trailing alphabet entries that every history set includes
@@ -357,7 +345,7 @@ pub fn c16(a: &Args) -> (Stats, String) {
             mk("1", "", 400),
         ]
         .into_iter()
-        .chain(base_alphabet_gaps_only(a.hard.as_deref()))
+        .chain(gap_from_args(a))
         .collect::<Vec<Inp>>()
     } else {
         base_alphabet(a.seed, a.hard.as_deref())
